@@ -179,6 +179,23 @@ def build_model(p):
         for f in fs:
             if f.endswith(".vo"):
                 newest = max(newest, os.path.getmtime(os.path.join(d, f)))
+    # the modules the extraction file requires must be compiled (they need not be dependencies of Properties/Cxx.v,
+    # e.g. a Run.v that only the extraction uses): build them through the Makefile, do not rely on an earlier full make
+    deps = []
+    for m in re.finditer(r"From\s+GV\s+Require(.*?)\.\s", open(srcs[2]).read() + " ", re.S):
+        for mod in re.findall(r"[A-Za-z_]\w*(?:\.[A-Za-z_]\w*)+", m.group(1)):
+            f = os.path.join("theories", *mod.split(".")) + ".vo"
+            if os.path.exists(os.path.join(COQ, f[:-1])):
+                deps.append(f)
+    missing = [f for f in deps if not os.path.exists(os.path.join(COQ, f))
+               or os.path.getmtime(os.path.join(COQ, f)) < os.path.getmtime(os.path.join(COQ, f[:-1]))]
+    if missing:
+        if not os.path.exists(os.path.join(COQ, "Makefile")):
+            sh(["./mkproject.sh"], cwd=COQ, timeout=300)
+        r = sh(["timeout", "3000", "make", "-j%d" % NPROC] + missing, cwd=COQ)
+        if r.returncode != 0:
+            raise GateFailure("model-build (coq modules of the extraction)", r.stdout[-3000:] + r.stderr[-3000:])
+        newest = time.time()
     if not os.path.exists(exe) or os.path.getmtime(exe) < newest:
         r = sh([os.path.join(VERIF, "ocaml", "build.sh"), p], timeout=1200)
         if r.returncode != 0:
